@@ -676,7 +676,13 @@ class Check(PropertyCheck):
                   "never_other assumes they raise no BaseException outside Exception, and — being total functions in the model — that they "
                   "terminate: the real migrate_flow did not (F-C36d, fixed), termination is checked by the harness with a per-case "
                   "timeout only); recursion head-room and allocation "
-                  "limit are environment parameters, measured/inferred in the tie; round-trip hypotheses: dict keys are "
+                  "limit are environment parameters, measured/inferred in the tie (the allocation limit is inferred from an observed "
+                  "MemoryError only for length prefixes >= 2**32); relaxed comparisons of the oracle, each exercised by known_selftest "
+                  "with doctored observations just outside it: flow states are compared by python equality (int/float numerically, "
+                  "tuple/list, dict order, NaN=NaN — bool, str/bytes, list order, extra keys stay distinct), codec values with dicts as "
+                  "finite maps and type-strict otherwise; expected states come from the flows built from the case spec before writing, "
+                  "never from the reader; the model tie (never the oracle) skips real-file / >6000-byte mutated files and two in three "
+                  "flow files in the thorough tier, and reports 'har' for HAR-branch inputs; round-trip hypotheses: dict keys are "
                   "null/int/bytes/str and pairwise distinct, str payloads are valid UTF-8, ints have <= 4300 digits, "
                   "float tokens are accepted literals, record size < 10^12 bytes, nesting within the recursion head-room.")
     technique = "Lean 4 proof (structural induction over values, fuel-indexed parser) + differential model-vs-code correspondence"
@@ -722,6 +728,47 @@ class Check(PropertyCheck):
         # the quick tier is cheaper without a process pool (fork + pickling cost more than the cases)
         self.parallel = tier == "thorough"
         self.tier = tier
+        self.known_selftest()
+
+    def known_selftest(self):
+        """the comparisons the oracle relaxes are exactly as wide as their reasons: doctored observations just outside each
+        relaxed class must be rejected (independent of the tree under test; a disagreement ends the run as INFRA)"""
+        def need(cond, what):
+            if not cond: raise AssertionError("C36 oracle selftest: " + what)
+        sc = state_canon
+        # (L1) flow states: python equality of states — int/float numerically, tuple/list, dict order, NaN == NaN; nothing more
+        need(sc(5) == sc(5.0) and sc((1, 2)) == sc([1, 2]) and sc({"a": 1, "b": 2}) == sc({"b": 2, "a": 1}), "numeric / sequence / dict-order equality")
+        need(sc(float("nan")) == sc(float("nan")), "NaN equals NaN")
+        need(sc(True) != sc(1) and sc(False) != sc(0) and sc(None) != sc(False), "bool is not an int here")
+        need(sc("a") != sc(b"a") and sc("") != sc(None) and sc([]) != sc({}), "str / bytes / None / containers stay apart")
+        need(sc(5) != sc(5.5) and sc(2 ** 53 + 1) != sc(float(2 ** 53)) and sc(0.1) != sc(0.10000000000000002), "numbers that differ")
+        need(sc([1, 2]) != sc([2, 1]) and sc({"a": [1, 2]}) != sc({"a": [2, 1]}), "list order matters")
+        need(sc({"a": 1}) != sc({"a": 1, "b": None}), "an extra key")
+        # (L2) codec level: dicts as finite maps, everything else type-strict
+        cu = lambda v: canon_unordered(canon(v))
+        need(cu({"a": 1, "b": [1, {"x": 1, "y": 2}]}) == cu({"b": [1, {"y": 2, "x": 1}], "a": 1}), "dict order is not demanded")
+        need(cu(1) != cu(True) and cu(1) != cu(1.0) and cu("a") != cu(b"a") and cu([1, 2]) != cu([2, 1]), "type-strict otherwise")
+        ok_val = {"orig": canon({"a": 1, "b": 2}), "back": canon({"b": 2, "a": 1}), "tail_hex": "78",
+                  "pop": ["ok", canon({"b": 2, "a": 1}), "78"], "load": ["ok", canon({"b": 2, "a": 1}), "78"]}
+        need(self.oracle({"k": "val"}, ok_val) == [], "a mirrored dict is a round trip")
+        need(self.oracle({"k": "val"}, {**ok_val, "back": canon({"b": 2, "a": True})}), "a changed value is not")
+        need(self.oracle({"k": "val"}, {**ok_val, "pop": ["ok", canon({"b": 2, "a": 1}), "7879"]}), "pop must leave exactly the tail")
+        need(self.oracle({"k": "val"}, {**ok_val, "load": ["err", "ValueError"]}), "load must succeed on a dumped value")
+        # the reader clause: a clean end or FlowReadException, nothing else
+        need(self.oracle({"k": "raw"}, {"read": [0, "flowRead"]}) == [] and self.oracle({"k": "raw"}, {"read": [3, "clean"]}) == [], "allowed endings")
+        need(self.oracle({"k": "raw"}, {"read": [0, "other:KeyError"]}) and self.oracle({"k": "mut"}, {"read": [1, "other:RecursionError"]}), "escaping exceptions")
+        need(self.oracle({"k": "deep"}, {"res": ["err", "other:RecursionError"]}) and not self.oracle({"k": "deep"}, {"res": ["err", "RecursionError"]}), "deep nesting")
+        good = {"read": [2, "clean"], "n": 2, "equal": [True, True], "diff": None, "read2": [2, "clean"], "equal2": [True, True], "types": ["http", "tcp"]}
+        need(self.oracle({"k": "flows"}, good) == [], "two flows written and read back")
+        need(self.oracle({"k": "flows"}, {**good, "equal": [True, False], "diff": "x"}), "a flow whose state changed")
+        need(self.oracle({"k": "flows"}, {**good, "read": [1, "clean"]}), "a flow lost")
+        need(self.oracle({"k": "flows"}, {**good, "read": [2, "flowRead"]}), "an error after the flows of an intact file")
+        need(self.oracle({"k": "flows"}, {**good, "read2": [2, "clean"], "equal2": [False, True]}), "second generation differs")
+        need(self.on_timeout({"k": "raw"}), "a hang is a violation")
+        # the allocation limit is taken from the run only for absurd length prefixes
+        need(self._mem_limit(["err", "MemoryError"], b"99999999999:abc") == 99999999998, "huge prefix: limit inferred")
+        need(self._mem_limit(["err", "MemoryError"], b"70000:abc") == BIG and self._mem_limit(["err", "IndexError"], b"99999999999:abc") == BIG,
+             "a MemoryError on a small prefix, or no MemoryError, is not attributed to the environment")
 
     def generate(self, rng, tier):
         yield from self.fixed_cases()
@@ -945,9 +992,7 @@ class Check(PropertyCheck):
             h = obs["data_hex"]
             # allocation limit of this machine, inferred from the run: MemoryError was observed iff the claimed
             # record length exceeds it (in-memory files never fail to "allocate")
-            mem = BIG
-            if obs["load"] == ["err", "MemoryError"]:
-                mem = self._claimed_len(unhx(h)) - 1
+            mem = self._mem_limit(obs["load"], unhx(h))
             return [f"pop {D_NORMAL} {h}", f"load {mem} {D_NORMAL} {h}", f"read {mem} {D_NORMAL} {obs['outcomes']} {h}"]
         if k == "deep":
             e, D, h = obs["entry"], obs["D"], obs["data_hex"]
@@ -961,6 +1006,16 @@ class Check(PropertyCheck):
             if obs["data_hex"] is None or case.get("file"): return None
             return [f"read {BIG} {D_NORMAL} {obs['outcomes']} {obs['data_hex']}"]
         return None
+
+    @classmethod
+    def _mem_limit(cls, load_obs, data):
+        """the one environment value the model takes from the run: the allocation limit. A MemoryError is attributed to it only
+        for a claimed record length of at least 2**32 bytes (no smaller read can fail to allocate on a machine that runs this);
+        otherwise the model is told "no limit" and a MemoryError shows up as a disagreement."""
+        n = cls._claimed_len(data)
+        if load_obs == ["err", "MemoryError"] and n >= 2 ** 32:
+            return n - 1
+        return BIG
 
     @staticmethod
     def _claimed_len(data):
